@@ -21,6 +21,6 @@ for p in $(cd harness && ls -d */ | tr -d /); do
   fi
 done
 # Lean: models, lemmas, property theorems, drivers
-python3 tools/genfacts.py 2>/dev/null || true
+python3 -m checks.facts
 (cd lean && lake build)
 echo setup done
